@@ -480,6 +480,8 @@ def to_model(g: Grammar, name='T', **settings):
             return peg.EmptyClosure()
         if isinstance(e, Cut):
             return peg.Cut()
+        if isinstance(e, Include):
+            return peg.RuleInclude(name=e.name)
         if isinstance(e, Meta):
             cls = {'int': peg.IntMeta, 'uint': peg.UIntMeta, 'float': peg.FloatMeta,
                    'bool': peg.BoolMeta, 'name': peg.NameMeta}[e.kind]
@@ -493,8 +495,18 @@ def to_model(g: Grammar, name='T', **settings):
             return peg.Group(exp=b(e))
         return b(e)
 
-    rules = [peg.Rule(name=r.name, exp=b(r.body), decorators=list(r.decorators),
-                      params=tuple(r.params), kwparams=dict(r.kwparams)) for r in g.rules]
+    rules = []
+    byname = {}
+    for r in g.rules:
+        if r.base:
+            # a based rule refers to an EARLIER rule (as the grammar language requires)
+            rule = peg.BasedRule(name=r.name, exp=b(r.body), baserule=byname[r.base], base=r.base,
+                                 decorators=list(r.decorators), params=tuple(r.params), kwparams=dict(r.kwparams))
+        else:
+            rule = peg.Rule(name=r.name, exp=b(r.body), decorators=list(r.decorators),
+                            params=tuple(r.params), kwparams=dict(r.kwparams))
+        byname[r.name] = rule
+        rules.append(rule)
     return peg.Grammar(name, rules, directives=directive_values(g.directives), keywords=tuple(g.keywords),
                        **settings)
 
